@@ -342,13 +342,86 @@ Definition run_well_formed (r : run_case) : bool :=
   && forallb (fun mo => (m_idx (fst mo) <? 256) && tab_has (r_tab r) (m_key (fst mo))
                         && negb (outcome_eqb (snd mo) Malformed)) (r_msgs r).
 
+(* --- admission AFTER the production result pipeline, on ONE group object ---
+   The group is built the way the protocol builds it (NewGroup, then MarkMemberAsInactive /
+   MarkMemberAsDisqualified in some order; a mark of a member that is not operating does nothing),
+   then goes through the steps of result preparation that only READ it (beacon: convertGjkrResult,
+   OperatingMemberIndexes, SignDKGResult; tecdsa: Result.MisbehavedMembersIndexes,
+   OperatingMemberIndexes; inactivity: the getters), and then the very same object answers
+   IsOperating for the result / claim signing admission. *)
+Definition mark_inactive (g : grp) (i : N) : grp :=
+  if is_operating g i then {| g_size := g_size g; g_ia := g_ia g ++ [i]; g_dq := g_dq g |} else g.
+Definition mark_disqualified (g : grp) (i : N) : grp :=
+  if is_operating g i then {| g_size := g_size g; g_ia := g_ia g; g_dq := g_dq g ++ [i] |} else g.
+(* a mark: (true = disqualified / false = inactive, member index) *)
+Definition apply_mark (g : grp) (m : bool * N) : grp :=
+  if fst m then mark_disqualified g (snd m) else mark_inactive g (snd m).
+Definition apply_marks (size : N) (marks : list (bool * N)) : grp :=
+  fold_left apply_mark marks {| g_size := size; g_ia := []; g_dq := [] |}.
+Definition operating (g : grp) : list N := filter (is_operating g) (member_indexes (g_size g)).
+(* merge into a set, sorted ascending (convertToMisbehaved / MisbehavedMembersIndexes) *)
+Fixpoint insert_u (x : N) (l : list N) : list N :=
+  match l with
+  | [] => [x]
+  | y :: t => if x <? y then x :: l else if x =? y then l else y :: insert_u x t
+  end.
+Definition misbehaved (g : grp) : list N := fold_right insert_u [] (g_ia g ++ g_dq g).
+
+(* the read-only steps: each returns the group it was given and a list of member indexes *)
+Inductive pstep := PConvert | POperating | PSign.
+Definition pstep_run (s : pstep) (g : grp) : grp * list N :=
+  (g, match s with PConvert => misbehaved g | POperating => operating g | PSign => [] end).
+Fixpoint pipe_run (g : grp) (steps : list pstep) : grp * list (list N) :=
+  match steps with
+  | [] => (g, [])
+  | s :: t => let (g1, o) := pstep_run s g in let (g2, os) := pipe_run g1 t in (g2, o :: os)
+  end.
+
+(* what is observed of the group object: the three exported views *)
+Record snap := { s_ia : list N; s_dq : list N; s_op : list N }.
+Definition snap_of (g : grp) : snap := {| s_ia := g_ia g; s_dq := g_dq g; s_op := operating g |}.
+Definition listN_eqb (a b : list N) : bool :=
+  (length a =? length b)%nat && forallb (fun p => fst p =? snd p) (combine a b).
+Definition snap_eqb (a b : snap) : bool :=
+  listN_eqb (s_ia a) (s_ia b) && listN_eqb (s_dq a) (s_dq b) && listN_eqb (s_op a) (s_op b).
+
+Record pipe_case := { q_step : step; q_self : N; q_ops : list N; q_session : N;
+                      q_marks : list (bool * N);
+                      q_first : snap;                           (* the group after the marks *)
+                      q_pipe : list (pstep * list N * snap);    (* read-only step, its output, the group after it *)
+                      q_tab : list (N * N);
+                      q_msgs : list (msg * outcome * snap) }.   (* message, what the state did, the group after it *)
+Definition pipe_grp (q : pipe_case) : grp := apply_marks (N.of_nat (length (q_ops q))) (q_marks q).
+(* the receiver: its group is the group AS MARKED - what the protocol decided - not whatever the
+   object holds after the pipeline *)
+Definition pipe_ctx (q : pipe_case) : ctx :=
+  {| x_self := [q_self q]; x_ops := q_ops q; x_grp := pipe_grp q; x_session := q_session q;
+     x_protocol := 0; x_leader := 0; x_allowed := []; x_timeout := 0; x_done := []; x_attempt := [] |}.
+Definition pipe_as_run (q : pipe_case) : run_case :=
+  {| r_step := q_step q; r_ctx := pipe_ctx q; r_tab := q_tab q; r_msgs := map fst (q_msgs q) |}.
+Definition pipe_well_formed (q : pipe_case) : bool :=
+  match kind_of (q_step q) with KPlain | KKeyed => true | _ => false end
+  && forallb (fun m => snd m <? 256) (q_marks q).
+(* spec: every message obeys the admission property with "excluded" = excluded by the marks *)
+Definition pipe_spec_ok (q : pipe_case) : bool := run_spec_ok (pipe_as_run q).
+(* agree: outcomes as the model's; every read-only step returned the model's output; the object
+   shows the marked group after the marks, after every read-only step and after every message *)
+Definition pipe_agree (q : pipe_case) : bool :=
+  let g := pipe_grp q in
+  run_agree (run_model (pipe_as_run q)) (map fst (q_msgs q))
+  && snap_eqb (q_first q) (snap_of g)
+  && forallb (fun e => snap_eqb (snd e) (snap_of g)) (q_pipe q)
+  && forallb (fun e => snap_eqb (snd e) (snap_of g)) (q_msgs q)
+  && forallb (fun e => listN_eqb (snd (fst e)) (snd (pstep_run (fst (fst e)) g))) (q_pipe q).
+
 Inductive case :=
   | CMsg (c : msg_case)
   (* call sites of shouldAcceptMessage / IsValidMembership found in the source tree that the
      driver's table does not know, and table entries that no longer exist *)
   | CSites (unknown missing : N)
   | CHist (h : hist_case)
-  | CRun (r : run_case).
+  | CRun (r : run_case)
+  | CPipe (q : pipe_case).
 
 Definition well_formed (c : msg_case) : bool :=
   (m_idx (c_msg c) <? 256) && (length (x_ops (c_ctx c)) <=? 255)%nat
@@ -376,6 +449,10 @@ Definition judge (c : case) : verdict :=
       if negb (run_well_formed r) then BadCase else
       if existsb (fun mo => outcome_eqb (snd mo) Malformed) (run_model r) then BadCase else
       decide (run_spec_ok r) (run_agree (run_model r) (r_msgs r))
+  | CPipe q =>
+      if negb (pipe_well_formed q && run_well_formed (pipe_as_run q)) then BadCase else
+      if existsb (fun mo => outcome_eqb (snd mo) Malformed) (run_model (pipe_as_run q)) then BadCase else
+      decide (pipe_spec_ok q) (pipe_agree q)
   end.
 
 (* what --replay prints: the model's own outcomes / validator answers *)
@@ -385,4 +462,5 @@ Definition explain (c : case) : list outcome * list bool :=
   | CSites _ _ => ([], [])
   | CHist h => ([], hist_model h)
   | CRun r => (map snd (run_model r), [])
+  | CPipe q => (map snd (run_model (pipe_as_run q)), map (fun i => negb (is_operating (pipe_grp q) i)) (map snd (q_marks q)))
   end.
